@@ -36,7 +36,7 @@ CLAIM = {
             'samples), uniform face counts within six sigma of area proportion, dense and Poisson coverage of every face corner, Poisson '
             'separation. Seeded random instances extend sizes: 33-2000 points in general position (pairwise distinct coordinates) and gridded / '
             'duplicated sets of at most 32 points for the trees and the Poisson selection, random lattice point sets and star-shaped polygons '
-            'for the hull functions, 6-30 random lattice points for the ball pivot, random skew tetrahedra for the samplers.',
+            'for the hull functions, 6-30 random lattice points for the ball pivot, random skew tetrahedra for the samplers. Meshes assembled in two steps (sampled, appended to, sampled again) are included in the sampling clauses; column-listed tied grids are built as partial trees as well.',
     'design_ref': 'DESIGN.md section 6 C15',
     'note': 'Trusted: TLC; harness projection. Open finding F20 (dependency kiddo 5.0.3): trees over more than 32 points with tied coordinates '
             'answer wrongly; such inputs are generated on purpose (one gridded class per run) and reported as KNOWN-FINDING, as is its '
